@@ -2130,3 +2130,78 @@ func c01R13(c *Ctx, r *Report) {
 		"the right operand is lowered into the same block as the left one (or the branch does not test the left operand)")
 	r.Check(phiPos != token.NoPos && phiPos > yPos, rule, helper.Name(), "result is a phi after both paths", c.pos(helper.Decl.Pos()), "the value of the expression is not merged from the two paths")
 }
+
+// ---- C14.R8: load failures are not reported from the parser goroutines ---------------------------------------
+
+func init() {
+	lateInits = append(lateInits, func() {
+		props["C14"].Quick = append(props["C14"].Quick, c14R8, c15R2)
+		props["C14"].Explanation += " (R8) in the concurrent parse phase a failure to locate or read a module is only recorded (under a mutex); it is reported after wg.Wait() at a location chosen by a total order on the import statements, not at the import of whichever goroutine asked first."
+	})
+}
+
+func c14R8(c *Ctx, r *Report) {
+	const rule = "C14.R8"
+	r.Describe(rule, "pipeline.parseModule: the error branches of ImportPathToFilePath and os.ReadFile contain no ReportError / DiagnosticBag.Add call; they call a same-package recorder that locks a mutex")
+	pm := c.LookupFn(pkgPipe, "(*Pipeline).parseModule")
+	report := c.LookupFn(pkgCtx, "(*CompilerContext).ReportError")
+	bagAdd := c.LookupFn("internal/diagnostics", "(*DiagnosticBag).Add")
+	if !r.Anchor(rule, pm != nil && report != nil && bagAdd != nil, "pipeline.parseModule / ReportError / DiagnosticBag.Add") {
+		return
+	}
+	info := pm.Info()
+	n := 0
+	ast.Inspect(pm.Decl.Body, func(x ast.Node) bool {
+		as, ok := x.(*ast.AssignStmt)
+		if !ok || len(as.Rhs) != 1 {
+			return true
+		}
+		cl, ok := as.Rhs[0].(*ast.CallExpr)
+		if !ok {
+			return true
+		}
+		f := callee(info, cl)
+		if f == nil || !(f.Name() == "ImportPathToFilePath" || f.Name() == "ReadFile" && f.Pkg() != nil && f.Pkg().Path() == "os") {
+			return true
+		}
+		errObj := objOf(info, as.Lhs[len(as.Lhs)-1])
+		if errObj == nil {
+			return true
+		}
+		// the following `if err != nil { … }`
+		ast.Inspect(pm.Decl.Body, func(y ast.Node) bool {
+			ifs, ok := y.(*ast.IfStmt)
+			if !ok || ifs.Pos() < as.Pos() {
+				return true
+			}
+			b, isNeq := isBinOp(ifs.Cond, token.NEQ)
+			if !isNeq || objOf(info, b.X) != errObj {
+				return true
+			}
+			// only the first such if after the assignment
+			if ifs.Pos() > as.End()+400 {
+				return true
+			}
+			n++
+			direct := false
+			recorded := false
+			for _, c2 := range callsIn(ifs.Body, false) {
+				if isCallTo(info, c2, report.Obj) || isCallTo(info, c2, bagAdd.Obj) {
+					direct = true
+				}
+				if rf := c.FnOf(callee(info, c2)); rf != nil && rf.Decl != nil && rf.Decl.Body != nil && rf.Obj.Pkg() == pm.Obj.Pkg() {
+					for _, c3 := range callsIn(rf.Decl.Body, false) {
+						if g := callee(rf.Info(), c3); g != nil && g.Name() == "Lock" && g.Pkg() != nil && g.Pkg().Path() == "sync" {
+							recorded = true
+						}
+					}
+				}
+			}
+			r.Check(!direct && recorded, rule, pm.Name(), "failure of "+f.Name()+" is recorded, not reported, by the parser goroutine", c.pos(ifs.Pos()),
+				"the diagnostic for a module that cannot be loaded is added by the goroutine that happened to be scheduled first, at the import location of its requester: a missing module imported from two modules is reported at a.fer in some runs and at b.fer in others")
+			return false
+		})
+		return true
+	})
+	r.Floor(rule, n, 2, "load-failure branches in parseModule")
+}
